@@ -178,5 +178,45 @@ theorem healthy_append (h₁ h₂ : Heap) (R₁ R₂ : List SlabID) (hh₁ : Hea
       exact ⟨r, List.mem_append_right _ hr,
         hreach.mono (fun e he => by rw [edges_append]; exact List.mem_append_right _ he)⟩
 
+/-- the empty heap is healthy and has no roots -/
+theorem healthy_nil : Healthy ([] : Heap) [] where
+  resolves := by intro e he; cases he
+  single := List.nodup_nil
+  owner := by intro e he; cases he
+  roots_iff := by
+    intro id
+    constructor
+    · intro h; cases h
+    · rintro ⟨h, _⟩; cases h
+  roots_nodup := List.nodup_nil
+  reach := by intro id h; cases h
+
+/-- SEVERAL INDEPENDENT CONTAINERS: any number of healthy heaps over pairwise disjoint sets of slab
+    IDs (e.g. containers at different addresses, or the trees of different root slabs) form a
+    healthy heap; its roots are all their roots. -/
+theorem healthy_join : ∀ (hs : List (Heap × List SlabID)),
+    (∀ p ∈ hs, Healthy p.1 p.2) →
+    hs.Pairwise (fun p q => ∀ x, AList.contains p.1 x = true → AList.contains q.1 x = false) →
+    Healthy (hs.flatMap (·.1)) (hs.flatMap (·.2))
+  | [], _, _ => healthy_nil
+  | p :: rest, hall, hpw => by
+    rw [List.pairwise_cons] at hpw
+    have ih := healthy_join rest (fun q hq => hall q (List.mem_cons_of_mem _ hq)) hpw.2
+    rw [List.flatMap_cons, List.flatMap_cons]
+    refine healthy_append p.1 _ p.2 _ (hall p (List.mem_cons_self ..)) ih ?_
+    intro x hx
+    cases hc : AList.contains (rest.flatMap (·.1)) x with
+    | false => rfl
+    | true =>
+      exfalso
+      rw [contains_iff_mem_keys] at hc
+      obtain ⟨⟨k, s⟩, hm, hk⟩ := List.mem_map.mp hc
+      obtain ⟨q, hq, hmq⟩ := List.mem_flatMap.mp hm
+      have hcq : AList.contains q.1 x = true := by
+        rw [contains_iff_mem_keys]
+        exact List.mem_map.mpr ⟨(k, s), hmq, hk⟩
+      rw [hpw.1 q hq x hx] at hcq
+      cases hcq
+
 end Health
 end Atree
